@@ -40,7 +40,13 @@ Proof. exact lcg_injective. Qed.
 Theorem generator_in_range : forall v, 0 <= v < 2147483648 -> 0 <= rand_next v < 2147483648.
 Proof. exact rand_next_range. Qed.
 
+(** a draw always moves the state: two successive results of psf_rand_int32 differ, so two handles opened one after the other
+    never get the same temporary file name from an advancing generator *)
+Theorem generator_always_advances : forall v, 0 <= v -> rand_next v <> v.
+Proof. exact rand_next_moves. Qed.
+
 Print Assumptions interleaving_is_invisible.
 Print Assumptions earlier_use_is_invisible.
 Print Assumptions every_global_is_accounted_for.
 Print Assumptions generator_step_injective.
+Print Assumptions generator_always_advances.
